@@ -163,7 +163,7 @@ CHECKS = {
         "assumptions": DB_ASSUME,
     },
     "C10": {
-        "lean": ["DrummerVerif.Props.C10"],
+        "lean": ["DrummerVerif.Props.C10", "DrummerVerif.Props.WitnessDb"],
         "streams": [dbstream("c10", 250, 4000, ["res", "Requests", "Outgoing"], replicas=True), dbstream("general", 150, 2000, ["res", "Requests", "Outgoing"]),
                     {"cmd": "apisrv", "driver": "ApiDriver", "sections": None, "eval_re": r"^case:", "timeout": 1500,
                      "args": {"quick": ["-n", "4", "-len", "60"], "thorough": ["-n", "60", "-len", "150"]}}],
@@ -171,26 +171,26 @@ CHECKS = {
         "assumptions": DB_ASSUME,
     },
     "C09": {
-        "lean": ["DrummerVerif.Props.C09"],
+        "lean": ["DrummerVerif.Props.C09", "DrummerVerif.Props.WitnessDb"],
         "streams": [dbstream("c09", 300, 5000, ["res", "T", "D", "F", "defs", "kv", "img"], replicas=True), dbstream("general", 150, 2000, ["res", "T", "D", "F", "defs", "kv"])],
         "rule": RULE_DB % "c09 (3 of 4 sequences are launch scenarios: definitions, launch batch, ticks with the completing reports placed one tick before / at / after the deadline, a member that never reports, repeated launch attempts, snapshots across the deadline, a reporting shard that is not defined) and general",
         "assumptions": DB_ASSUME,
     },
     "C05": {
-        "lean": ["DrummerVerif.Props.C05"],
+        "lean": ["DrummerVerif.Props.C05", "DrummerVerif.Props.WitnessDb"],
         "streams": [dbstream("c05", 250, 4000, ["res", "T", "img", "hosts", "info", "states"]), dbstream("general", 150, 2000, ["res", "T", "img", "hosts", "info", "states"]),
                     schedstream("repair", 250, 4000, ["maintain"]), schedstream("launch", 150, 2000, ["launch"])],
         "rule": RULE_DB % "c05 (silences of TTL-1 step, TTL, TTL+1 step between reports, reports at time 0, replicas that never report, hosts that stop and resume) and general; availability is read through the real SHARD_STATES query after every command",
         "assumptions": DB_ASSUME,
     },
     "C04": {
-        "lean": ["DrummerVerif.Props.C04"],
+        "lean": ["DrummerVerif.Props.C04", "DrummerVerif.Props.WitnessDb"],
         "streams": [dbstream("c04", 250, 4000, ["res", "img", "states"]), dbstream("general", 150, 2000, ["res", "img", "states"])],
         "rule": RULE_DB % "c04 (report heavy) and general",
         "assumptions": DB_ASSUME,
     },
     "C11": {
-        "lean": ["DrummerVerif.Props.C11", "DrummerVerif.Props.Witness"],
+        "lean": ["DrummerVerif.Props.C11", "DrummerVerif.Props.Witness", "DrummerVerif.Props.WitnessDb"],
         "streams": [dbstream("c11", 250, 4000, ["res", "img", "kill"]), dbstream("general", 150, 2000, ["res", "img", "kill"]),
                     schedstream("general", 150, 2000, ["maintain"]), loopstream(12, 300), AGENT_SCENARIO],
         "rule": RULE_DB % "c11 (every second report of a non-member host carries a stray replica) and general",
